@@ -25,7 +25,7 @@ S4 the default breakpoints separate the inflection points (f'' keeps its sign in
 """
 import math
 import re
-from ..cfg import cond_atoms, norm_facts, xrender, expand_locals, Facts, kids, strip, walk, cv, render, call_args, call_object, canon_rel
+from ..cfg import MiniInt, cond_atoms, norm_facts, xrender, expand_locals, Facts, kids, strip, walk, cv, render, call_args, call_object, canon_rel
 from ..cfg import short_loc as _short_loc
 from ..facts import export_many, AnalysisBroken
 
@@ -242,7 +242,8 @@ def subst(e, inner):
 def run(rep, ctx):
     repo = ctx["repo"]
     _REPO[0] = repo
-    d = export_many([dict(unit=U, fn=[r"mp::(BasicPLApproximator|PLApproximator|PLPoints|FuncGraphDomain)::.*", r"mp::PLApproximate"], repo=repo)])
+    d = export_many([dict(unit=U, fn=[r"mp::(BasicPLApproximator|PLApproximator|PLPoints|FuncGraphDomain)::.*", r"mp::PLApproximate"], repo=repo,
+                          closure=1, closure_roots=r"BasicPLApproximator::CompareError$")])
     F = Facts(d)
     rep.note_units([U])
     funcs = [f for f in F.funcs if not f.is_dependent() and f.cfg is not None]
@@ -433,8 +434,24 @@ def run(rep, ctx):
     er = [v for v in ce.walk() if v["k"] == "VarDecl" and v.get("name") == "err"]
     cmpn = sorted(render(kids(n)[0]).replace(" ", "") for n in ce.walk() if n["k"] == "IfStmt")
     rets = sorted(cv(kids(r)[0]) for r in ce.walk() if r["k"] == "ReturnStmt")
-    g1.check(len(ub) == 1 and render(kids(ub[0])[0]) == "laPrm_.ubErr" and cmpn == ["err<ub", "err>ub"] and rets == [-1, 0, 1] and
-             len(er) == 1 and "maxErrorRelAbove1" in render(er[0]), "compare-with-ubErr", short_loc(ce.loc),
+    okce = len(ub) == 1 and render(kids(ub[0])[0]) == "laPrm_.ubErr" and cmpn == ["err<ub", "err>ub"] and rets == [-1, 0, 1] and \
+        len(er) == 1 and "maxErrorRelAbove1" in render(er[0])
+    if not okce:
+        # written differently (a three-way helper, ...): the sign is evaluated for errors below, at and above the bound
+        okce = True
+        for E_, UB_, want_ in ((0.5, 1.0, -1), (1.0, 1.0, 0), (2.0, 1.0, 1), (1e-9, 1e-3, -1), (0.02, 0.01, 1)):
+            def atom(t_, n_, env_, E_=E_, UB_=UB_):
+                if n_["k"] in ("CXXMemberCallExpr", "CallExpr") and (n_.get("callee") or "").split("::")[-1] == "maxErrorRelAbove1":
+                    return E_
+                if t_.replace("this->", "").replace(" ", "") == "laPrm_.ubErr":
+                    return UB_
+                return None
+            try:
+                got_ = MiniInt(F, atom).call(ce, [1.0, 1.0, 2.0, 2.0])
+            except AnalysisBroken:
+                got_ = None
+            okce = okce and got_ == want_
+    g1.check(okce, "compare-with-ubErr", short_loc(ce.loc),
              "CompareError: sign of maxErrorRelAbove1(...) - laPrm_.ubErr", "ub = %s, comparisons %s" % (render(kids(ub[0])[0]) if ub else "?", cmpn))
     for nm, wantc, sign in (("IncreaseStepWhileErrorSmallEnough", "0>CompareError(x0,f0,x0+dx0,f1)", "grow"), ("DecreaseStepWhileErrorTooBig", "0<CompareError(x0,f0,x0+dx0,f1)", "shrink")):
         g = one(nm)
